@@ -99,14 +99,26 @@ def sym_not(v):
 # ---------------------------------------------------------------------------
 # finite choices
 
+_EQ_CACHE = {}
+
+
+def var_eq(var, name, i):
+    """Cached atomic condition ``var == i`` (z3's Python API is slow)."""
+    k = (name, i)
+    c = _EQ_CACHE.get(k)
+    if c is None:
+        c = _EQ_CACHE[k] = (var == i)
+    return c
+
+
 class SymChoice:
     """A value drawn from a finite menu; compared lazily."""
-    __slots__ = ('var', 'menu', '_val')
+    __slots__ = ('var', 'menu', 'name')
 
-    def __init__(self, var, menu):
+    def __init__(self, var, menu, name=None):
         self.var = var
         self.menu = list(menu)
-        self._val = None
+        self.name = name or str(var)
 
     def _idx_cond(self, pred):
         idx = [i for i, m in enumerate(self.menu) if pred(m)]
@@ -114,7 +126,9 @@ class SymChoice:
             return False
         if len(idx) == len(self.menu):
             return True
-        return mkbool(z3.Or(*[self.var == i for i in idx]))
+        if len(idx) == 1:
+            return SymBool(var_eq(self.var, self.name, idx[0]))
+        return mkbool(z3.Or(*[var_eq(self.var, self.name, i) for i in idx]))
 
     def __eq__(self, other):
         if isinstance(other, SymChoice):
@@ -130,8 +144,9 @@ class SymChoice:
         return sym_not(self.__eq__(other))
 
     def concretize(self):
+        eng = cur()
         for i in range(len(self.menu) - 1):
-            if mkbool(self.var == i):
+            if eng.decide(var_eq(self.var, self.name, i)):
                 return self.menu[i]
         return self.menu[-1]
 
@@ -229,11 +244,18 @@ class SymInt:
 
 class Ch:
     """A symbolic character: z3 Int expression with a finite domain."""
-    __slots__ = ('e', 'dom')
+    __slots__ = ('e', 'dom', '_eq')
 
     def __init__(self, e, dom):
         self.e = e
         self.dom = frozenset(dom)
+        self._eq = {}
+
+    def eq(self, k):
+        c = self._eq.get(k)
+        if c is None:
+            c = self._eq[k] = (self.e == k)
+        return c
 
 
 def _ch_eq(a, b):
@@ -247,7 +269,7 @@ def _ch_eq(a, b):
             return False
         if len(a.dom) == 1:
             return True
-        return a.e == b
+        return a.eq(b)
     if not (a.dom & b.dom):
         return False
     return a.e == b.e
@@ -261,7 +283,9 @@ def _ch_pred(c, pred):
         return False
     if len(yes) == len(c.dom):
         return True
-    return z3.Or(*[c.e == a for a in sorted(yes)])
+    if len(yes) == 1:
+        return c.eq(yes[0])
+    return z3.Or(*[c.eq(a) for a in sorted(yes)])
 
 
 class NeedConcrete(Exception):
@@ -282,7 +306,7 @@ def _count_concretize():
                            % CONCRETIZE_LIMIT)
 
 
-CONCRETIZE_LIMIT = 60000
+CONCRETIZE_LIMIT = 400000
 
 
 def _ch_map(c, fn):
@@ -402,7 +426,7 @@ class SymStr:
             pick = dom[-1]
             for a in dom[:-1]:
                 _count_concretize()
-                if mkbool(c.e == a):
+                if cur().decide(c.eq(a)):
                     pick = a
                     break
             out.append(chr(pick))
@@ -824,26 +848,40 @@ def sym_mod(tmpl, args):
                 tmpl = tmpl.concretize()
                 break
         else:
-            # no conversion specifier at all; CPython still validates args
-            if isinstance(args, tuple) and args:
+            # no conversion specifier at all; CPython still validates args:
+            # a non-empty tuple, or a single argument that is not a mapping
+            # (anything subscriptable except str/tuple counts as one)
+            if isinstance(args, tuple):
+                bad = len(args) > 0
+            else:
+                bad = is_strlike(args) or not hasattr(type(args),
+                                                      '__getitem__')
+            if bad:
                 raise TypeError('not all arguments converted during string '
                                 'formatting')
-            if not isinstance(args, (tuple, collections.abc.Mapping)) \
-                    and not (is_strlike(args) and False):
-                if not isinstance(args, collections.abc.Mapping):
-                    raise TypeError('not all arguments converted during '
-                                    'string formatting')
             return tmpl
     # concrete template from here on
-    if not has_sym(args) and not _is_symmapping(args):
+    if type(args) in (dict, tuple, _real_str, int, float, bool,
+                      type(None)) and not has_sym(args):
         return tmpl % args
     parts = _parse_percent(tmpl)
     if parts is None:
-        return tmpl % concretize_value(_plain_mapping(args))
+        if type(args) in (dict, tuple, list):
+            args = concretize_value(args)
+        elif hasattr(args, 'to_plain'):
+            args = args.to_plain()
+        return tmpl % args
     keyed = any(p[0] == 'fld' and p[1] is not None for p in parts)
+    if not any(p[0] == 'fld' for p in parts):
+        return tmpl % (concretize_value(args) if type(args) in (
+            dict, tuple, list) else args)
     out = []
     pos = 0
-    if not keyed:
+    if keyed:
+        if isinstance(args, (tuple, _real_str, SymStr)) or not hasattr(
+                args, '__getitem__'):
+            raise TypeError('format requires a mapping')
+    else:
         seq = args if isinstance(args, tuple) else (args,)
     for p in parts:
         if p[0] == 'lit':
